@@ -12,6 +12,8 @@
 #include <yaclib/async/when_any.hpp>
 #if YACLIB_CORO != 0
 #  include <yaclib/coro/await.hpp>
+#  include <yaclib/coro/await_on.hpp>
+#  include <yaclib/coro/await_sticky.hpp>
 #  include <yaclib/coro/future.hpp>
 #  include <yaclib/coro/on.hpp>
 #endif
@@ -32,16 +34,45 @@ inline long News() {
 using F = yaclib::Future<int>;
 using P = yaclib::Promise<int>;
 
-struct Inputs {
-  std::vector<F> fs;
-  std::vector<P> ps;
-  explicit Inputs(int n) {
+// a copyable, heap-owning payload whose move constructor is not declared noexcept (like many user types): the library
+// must still move it, every copy is an extra heap block per input
+struct Blob {
+  static inline long copies = 0;
+  std::vector<int> data;
+  Blob() : data(8, 1) {
+  }
+  explicit Blob(int x) : data(8, x) {
+  }
+  Blob(const Blob& o) : data(o.data) {
+    ++copies;
+  }
+  Blob(Blob&& o) : data(std::move(o.data)) {  // NOLINT: deliberately not noexcept
+  }
+  Blob& operator=(const Blob& o) {
+    data = o.data;
+    ++copies;
+    return *this;
+  }
+  Blob& operator=(Blob&& o) {  // NOLINT
+    data = std::move(o.data);
+    return *this;
+  }
+};
+
+template <typename V>
+struct InputsT {
+  std::vector<yaclib::Future<V>> fs;
+  std::vector<yaclib::Promise<V>> ps;
+  std::vector<V> vals;  // created before the measurement starts, moved into the promises
+  explicit InputsT(int n) {
     fs.reserve(static_cast<std::size_t>(n));
     ps.reserve(static_cast<std::size_t>(n));
+    vals.reserve(static_cast<std::size_t>(n));
     for (int i = 0; i < n; ++i) {
-      auto [f, p] = yaclib::MakeContract<int>();
+      auto [f, p] = yaclib::MakeContract<V>();
       fs.push_back(std::move(f));
       ps.push_back(std::move(p));
+      vals.emplace_back(i);
     }
   }
   void SetAll(int fail_at) {
@@ -49,19 +80,21 @@ struct Inputs {
       if (static_cast<int>(i) == fail_at) {
         std::move(ps[i]).Set(yaclib::StopTag{});
       } else {
-        std::move(ps[i]).Set(static_cast<int>(i));
+        std::move(ps[i]).Set(std::move(vals[i]));
       }
     }
   }
 };
+using Inputs = InputsT<int>;
 
 enum Comb { cAllFirstFail, cAllNone, cAnyLastFail, cAnyFirstFail, cAnyNone, cJoinNone, cJoinFirstFail, kCombs };
 const char* const kCombName[] = {"WhenAll<FirstFail>", "WhenAll<None>",  "WhenAny<LastFail>", "WhenAny<FirstFail>",
                                  "WhenAny<None>",      "Join<None>",     "Join<FirstFail>"};
 
 // returns allocations made by the combinator call + completion of the inputs + consumption of the output
-long CountDynamic(int comb, int n, int fail_at, bool ready_before) {
-  Inputs in{n};
+template <typename V>
+long CountDynamicT(int comb, int n, int fail_at, bool ready_before) {
+  InputsT<V> in{n};
   if (ready_before) {
     in.SetAll(fail_at);
   }
@@ -97,6 +130,10 @@ long CountDynamic(int comb, int n, int fail_at, bool ready_before) {
       break;
   }
   return News() - a0;
+}
+
+inline long CountDynamic(int comb, int n, int fail_at, bool ready_before) {
+  return CountDynamicT<int>(comb, n, fail_at, ready_before);
 }
 
 template <int N>
@@ -172,11 +209,19 @@ void CombinatorCase(Ctx& ctx, bool is_static) {
   }
   static const int ns[] = {2, 3, 4, 8, 16, 33, 64};
   long c[7];
+  bool blob = ctx.rng.Below(3) == 0;
+  long copies0 = Blob::copies;
   for (int i = 0; i < 7; ++i) {
     int fa = with_fail ? static_cast<int>(ctx.rng.Below(static_cast<u32>(ns[i]))) : -1;
-    c[i] = CountDynamic(comb, ns[i], fa, ready_before);
+    c[i] = blob ? CountDynamicT<Blob>(comb, ns[i], fa, ready_before) : CountDynamic(comb, ns[i], fa, ready_before);
   }
-  long c1 = CountDynamic(comb, 1, -1, ready_before);
+  long c1 = blob ? CountDynamicT<Blob>(comb, 1, -1, ready_before) : CountDynamic(comb, 1, -1, ready_before);
+  if (blob) {
+    ctx.Note("(payload: copyable heap-owning type with a potentially throwing move) ");
+    ctx.Check(Blob::copies == copies0, "payload-copied", "C20",
+              "%s over plain futures copied the payload %ld times (every copy of a heap-owning value is a heap block per input)",
+              kCombName[comb], Blob::copies - copies0);
+  }
   ctx.Note("%s iterator form, inputs %s, %s: allocations n=1:%ld n=2:%ld n=3:%ld n=4:%ld n=8:%ld n=16:%ld n=33:%ld n=64:%ld",
            kCombName[comb], ready_before ? "ready before" : "completed after", with_fail ? "one failing" : "all succeed",
            c1, c[0], c[1], c[2], c[3], c[4], c[5], c[6]);
@@ -319,7 +364,9 @@ void StrandCase(Ctx& ctx) {
 void CoAwaitCase(Ctx& ctx) {
   int n = static_cast<int>(ctx.rng.In(1, 3));
   bool ready = ctx.rng.Coin();
-  int form = static_cast<int>(ctx.rng.Below(4));  // 0 co_await f, 1 Await(f..), 2 Await(it,n), 3 On(e)
+  // 0 co_await f, 1 Await(f..), 2 Await(it,n), 3 On(e), 4 AwaitSticky(f..), 5 AwaitSticky(it,n), 6 AwaitSticky(it,end),
+  // 7 AwaitOn(e,f..), 8 AwaitOn(e,it,n), 9 Await(it,end)
+  int form = static_cast<int>(ctx.rng.Below(10));
   Inputs in{3};
   auto manual = yaclib::MakeManual();
   long inside = -1;
@@ -342,8 +389,38 @@ void CoAwaitCase(Ctx& ctx) {
       case 2:
         co_await yaclib::Await(in.fs.begin(), static_cast<std::size_t>(n));
         break;
-      default:
+      case 3:
         co_await yaclib::On(*manual);
+        break;
+      case 4:
+        if (n == 1) {
+          co_await yaclib::AwaitSticky(in.fs[0]);
+        } else if (n == 2) {
+          co_await yaclib::AwaitSticky(in.fs[0], in.fs[1]);
+        } else {
+          co_await yaclib::AwaitSticky(in.fs[0], in.fs[1], in.fs[2]);
+        }
+        break;
+      case 5:
+        co_await yaclib::AwaitSticky(in.fs.begin(), static_cast<std::size_t>(n));
+        break;
+      case 6:
+        co_await yaclib::AwaitSticky(in.fs.begin(), in.fs.begin() + n);
+        break;
+      case 7:
+        if (n == 1) {
+          co_await yaclib::AwaitOn(*manual, in.fs[0]);
+        } else if (n == 2) {
+          co_await yaclib::AwaitOn(*manual, in.fs[0], in.fs[1]);
+        } else {
+          co_await yaclib::AwaitOn(*manual, in.fs[0], in.fs[1], in.fs[2]);
+        }
+        break;
+      case 8:
+        co_await yaclib::AwaitOn(*manual, in.fs.begin(), static_cast<std::size_t>(n));
+        break;
+      default:
+        co_await yaclib::Await(in.fs.begin(), in.fs.begin() + n);
         break;
     }
     inside = News() - a0;
@@ -359,7 +436,9 @@ void CoAwaitCase(Ctx& ctx) {
   while (static_cast<yaclib::ManualExecutor&>(*manual).Drain() != 0) {
   }
   (void)std::move(f).Get();
-  static const char* const kForm[] = {"co_await future", "co_await Await(f...)", "co_await Await(it, n)", "co_await On(e)"};
+  static const char* const kForm[] = {"co_await future", "co_await Await(f...)", "co_await Await(it, n)", "co_await On(e)",
+                                      "co_await AwaitSticky(f...)", "co_await AwaitSticky(it, n)", "co_await AwaitSticky(it, end)",
+                                      "co_await AwaitOn(e, f...)", "co_await AwaitOn(e, it, n)", "co_await Await(it, end)"};
   ctx.Note("%s, n=%d, awaited %s: %ld allocations inside the coroutine around the co_await", kForm[form], n,
            ready ? "already ready" : "completed later", inside);
   ctx.SetNontrivial(true);
